@@ -375,8 +375,8 @@ func init() {
 
 func init() {
 	props["C04"] = &propDef{header: "From BE Require Import Corr.CheckC04.",
-		headers:   map[string]string{"R": "From BE Require Import Corr.CheckRr."},
-		rule:      e2eRule + "; both posting-list index types with a recording ResultCollector, biased to documents with several simultaneously satisfied conjunctions of equal and different sizes, also over pattern fields (texts containing several keywords) and range fields (overlapping kept intervals); the roaring scanner's raw result (GetRawResult after every retrieval) on default-container and pattern-container fields",
+		headers:   map[string]string{"R": "From BE Require Import Corr.CheckRr.", "C": "From BE Require Import Corr.CheckCache."},
+		rule:      e2eRule + "; both posting-list index types with a recording ResultCollector (also on builds served from a cache provider), biased to documents with several simultaneously satisfied conjunctions of equal and different sizes, also over pattern fields (texts containing several keywords) and range fields (overlapping kept intervals); the roaring scanner's raw result (GetRawResult after every retrieval) on default-container and pattern-container fields",
 		shardSize: 25,
 		gen: func(tier string, r *Rand, add func(in interface{})) {
 			n := 40
@@ -453,12 +453,40 @@ func init() {
 			for i := 0; i < n/2; i++ {
 				add(genRrCase(r, 1+r.Intn(4), 0, 0, 8+r.Intn(12), 1+r.Intn(2)))
 			}
+			// builds served from a cache provider: the collector must get the same conjunctions (include-free
+			// conjunctions with long exclude lists next to other satisfied conjunctions of the same document)
+			for _, kind := range []string{"kgroups", "compact"} {
+				ints := func(k, off int) TV {
+					l := make([]TV, k)
+					for i := range l {
+						l[i] = tvInt("int", int64(off+i))
+					}
+					return tvSlice("[]int", l...)
+				}
+				c := eCase{Kind: kind, Policy: "error"}
+				c.Docs = []eDoc{
+					{ID: 7, Cons: []eConj{{{F: 0, Inc: true, V: ints(1, 1)}}, {{F: 1, Inc: false, V: ints(5, 0)}}}},
+					{ID: 8, Cons: []eConj{{{F: 1, Inc: false, V: ints(4, 3)}, {F: 2, Inc: false, V: ints(1, 3)}}, {{F: 0, Inc: true, V: ints(6, 0)}, {F: 1, Inc: true, V: ints(2, 100)}}}},
+					{ID: -9, Cons: []eConj{{{F: 2, Inc: false, V: ints(7, 0)}}, {{F: 2, Inc: false, V: ints(2, 1)}}, {{F: 0, Inc: true, V: ints(3, 1)}}}},
+				}
+				for _, a := range [][3]int64{{1, 100, 9}, {1, 2, 3}, {0, 101, 1}, {9, 9, 9}, {1, 4, 0}, {2, 7, 7}} {
+					c.Queries = append(c.Queries, eQuery{A: []eAssign{{F: 0, V: tvInt("int", a[0])}, {F: 1, V: tvInt("int", a[1])}, {F: 2, V: tvInt("int", a[2])}}},
+						eQuery{A: []eAssign{{F: 1, V: tvInt("int", a[1])}}})
+				}
+				c.Queries = append(c.Queries, eQuery{})
+				add(cacheIn{Cache: true, Case: c, Thr: 2, Seed: 5, MissPct: 0, DropPct: 0})
+				add(cacheIn{Cache: true, Case: c, Thr: 2, Seed: 6, MissPct: 30, DropPct: 0, Reuse: true})
+			}
 		},
 		exec: func(raw json.RawMessage) (execResult, error) {
 			var probe struct {
 				Fields json.RawMessage `json:"fields"`
+				Cache  bool            `json:"cache"`
 			}
 			json.Unmarshal(raw, &probe)
+			if probe.Cache {
+				return execCache(raw)
+			}
 			if probe.Fields != nil {
 				res, err := execRr(raw)
 				res.Family = "R"
